@@ -47,6 +47,21 @@ Theorem C21_partial :
 Proof. exact matcher_correct. Qed.
 Print Assumptions C21_partial.
 
+(* The two path-string filters of Globber.glob, for ALL paths: the hidden test looks at the last component only
+   (nothing else - which is both what it guarantees and the defect), and the sub-package test
+   strings.HasPrefix(name, dir+"/") || name == dir is a test on whole leading components. *)
+Theorem C21_partial_hidden :
+  forall pkg f, f <> [] -> forallb name_ok (pkg ++ f) = true -> last f [] <> [] ->
+    is_hidden (path_str pkg f) = name_hidden (last f []).
+Proof. exact hidden_filter_is_base_name. Qed.
+
+Theorem C21_partial_subpackage :
+  forall d, d <> [] -> forallb name_ok d = true ->
+  forall g, g <> [] -> forallb name_ok g = true ->
+    is_in_directories (intercalate g) [intercalate d] = is_prefix_segs d g.
+Proof. exact in_directory_whole_components. Qed.
+Print Assumptions C21_partial_subpackage.
+
 (* Non-vacuity: the witnesses are well-formed inputs on which the model was run ... *)
 Example C21_refuted_nonvacuous :
   inputs_ok [s "p"] w1_tree [[DStar; Seg txt_pat]] [] = true
@@ -67,5 +82,10 @@ Example C21_partial_nonvacuous :
   /\ pattern_to_matcher (root_str pkg) (render p)
      = Some (toks_of pkg p)
   /\ forallb (fun pkg => forallb (fun p => implb (fragment pkg p) (compiles pkg p)) sweep_pats)
-             [[]; [s "pkg"]; [s "third_party"; s "go+x"]] = true.
+             [[]; [s "pkg"]; [s "third_party"; s "go+x"]] = true
+  (* a sibling that merely shares a name prefix with a sub-package is not inside it; a file in a hidden
+     directory is not hidden for isHidden *)
+  /\ is_in_directories (s "p/sub2/a.txt") [s "p/sub"] = false
+  /\ is_in_directories (s "p/sub/a.txt") [s "p/sub"] = true
+  /\ is_hidden (s "p/.hid/x.txt") = false /\ is_hidden (s "p/d/.x.txt") = true.
 Proof. vm_compute. repeat split. Qed.
